@@ -448,9 +448,76 @@ def msp_harnesses():
     return hs
 
 
+def step_harnesses():
+    hs = []
+    VAL = "table validity assumed: distinct keys, canonical when unstranded, the examined link's target has >=1 extension on the facing side unless palindromic (the code's documented `unreachable`)"
+    for tag, ns in (("kmer4", (1, 2, 3)), ("kmer3", (2, 3)), ("kmer5", (3,)), ("kmer6", (3,)), ("kmer2", (3,))):
+        ty = KT_BY_TAG[tag][1]
+        for n in ns:
+            for je in (False, True):
+                q = (tag == "kmer4" and n == 3) or (tag == "kmer3" and n == 2 and not je)
+                hs.append(H("c02_kmer_step__%s__n%d_%s" % (tag, n, "eq" if je else "any"), ["C02", "C06"],
+                            "crate::step_ops::kmer_step::<%s, %d, %s>()" % (ty, n, "true" if je else "false"),
+                            unwind=max(12, n + 4), cap=900, mem=20, stubs=["S1", "S2"], tier="quick" if q else "thorough",
+                            funcs=["CompressFromHash::try_extend_kmer", "CompressFromHash::get_kmer_data", "CompressFromHash::get_kmer_id",
+                                   "Kmer::min_rc_flip", "Kmer::is_palindrome", "Dir::cond_flip",
+                                   "ScmapCompress::join_test" if je else "SimpleCompress::join_test"],
+                            bounds="%d-row table over %s: all keys, all 256 extension sets per row, all payloads, all availability subsets, stranded and unstranded, both directions, every start row; %s" % (n, tag, VAL)))
+    GV = "graph validity assumed: node-end k-mers pairwise distinct per side (MPHF precondition)"
+    shapes = [("kmer3", 2, (3, 4)), ("kmer3", 2, (4, 3)), ("kmer4", 2, (4, 5)), ("kmer4", 2, (4, 4)), ("kmer3", 3, (3, 4, 3)), ("kmer4", 3, (4, 5, 4))]
+    for tag, nn, lens in shapes:
+        ty, k = KT_BY_TAG[tag][1], KT_BY_TAG[tag][2]
+        L = k + 1
+        ls = "_".join(str(x) for x in lens)
+        arr = "[%s]" % ", ".join(str(x) for x in lens)
+        q = nn == 2 and lens in ((3, 4), (4, 5))
+        hs.append(H("c03_find_link__%s__l%s" % (tag, ls), ["C03", "C09"],
+                    "crate::step_ops::find_link::<%s, %d, %d>(%s)" % (ty, nn, L, arr), unwind=max(14, 2 * L + 4), cap=900, mem=20,
+                    stubs=["S1", "S2"], tier="quick" if q else "thorough",
+                    funcs=["DebruijnGraph::find_link", "DebruijnGraph::search_kmer", "BaseGraph::add", "BaseGraph::finish_serial"],
+                    bounds="%d-node graph with node lengths %s over %s: all bases, stranded and unstranded, ALL 4^K query k-mers (present and absent), both directions; %s" % (nn, lens, tag, GV)))
+        hs.append(H("c03_find_edges__%s__l%s" % (tag, ls), ["C03"],
+                    "crate::step_ops::find_edges::<%s, %d, %d>(%s)" % (ty, nn, L, arr), unwind=max(14, 2 * L + 4), cap=900, mem=20,
+                    stubs=["S1", "S2"], tier="thorough",
+                    funcs=["DebruijnGraph::find_edges", "Node::edges", "Node::l_edges", "Node::r_edges", "Node::exts", "Node::data", "Node::len"],
+                    bounds="%d-node graph, lengths %s over %s: all bases, all extension sets, every node and side; %s" % (nn, lens, tag, GV)))
+        hs.append(H("c09_fix_exts__%s__l%s" % (tag, ls), ["C09", "C03"],
+                    "crate::step_ops::fix_exts::<%s, %d, %d>(%s)" % (ty, nn, L, arr), unwind=max(14, 2 * L + 4), cap=900, mem=20,
+                    stubs=["S1", "S2"], tier="quick" if q and tag == "kmer4" else "thorough",
+                    funcs=["DebruijnGraph::get_valid_exts", "DebruijnGraph::fix_exts", "DebruijnGraph::find_link"],
+                    bounds="%d-node graph, lengths %s over %s: all bases, all extension sets, all valid-node subsets (and None); %s" % (nn, lens, tag, GV)))
+        for je in (False, True):
+            hs.append(H("c09_node_step__%s__l%s_%s" % (tag, ls, "eq" if je else "any"), ["C09"],
+                        "crate::step_ops::node_step::<%s, %d, %d, %s>(%s)" % (ty, nn, L, "true" if je else "false", arr),
+                        unwind=max(14, 2 * L + 4), cap=900, mem=20, stubs=["S1", "S2"],
+                        tier="quick" if (q and not je) else "thorough",
+                        funcs=["CompressFromGraph::try_extend_node", "DebruijnGraph::find_link", "Node::sequence", "Vmer::term_kmer",
+                               "ScmapCompress::join_test" if je else "SimpleCompress::join_test"],
+                        bounds="%d-node graph, lengths %s over %s: all bases, extension sets, payloads, availability subsets, stranded/unstranded, both directions, every start node; %s; the examined extension resolves to a node with >=1 facing extension (documented panics otherwise)" % (nn, lens, tag, GV)))
+    for tag, lens, (a, b) in (("kmer3", (3, 4), (0, 1)), ("kmer3", (3, 4), (1, 0)), ("kmer3", (4, 4), (0, 0)), ("kmer4", (4, 5), (0, 1)), ("kmer4", (5, 4), (1, 1))):
+        ty, k = KT_BY_TAG[tag][1], KT_BY_TAG[tag][2]
+        hs.append(H("c09_sequence_of_path__%s__l%d_%d__p%d%d" % (tag, lens[0], lens[1], a, b), ["C09", "C03"],
+                    "crate::step_ops::sequence_of_path::<%s, %d>([%d, %d], %d, %d)" % (ty, k + 1, lens[0], lens[1], a, b), unwind=2 * (k + 1) + 6, cap=900, mem=20,
+                    stubs=["S1", "S2"], tier="quick" if (tag == "kmer3" and (a, b) == (0, 1)) else "thorough",
+                    funcs=["DebruijnGraph::sequence_of_path", "DnaStringSlice::rc", "DnaString::push"],
+                    bounds="2-node graph, lengths %s: all bases, path (node %d, node %d) with both entry sides symbolic" % (lens, a, b)))
+    for tag, n in (("kmer3", 2), ("kmer4", 3), ("kmer5", 3), ("kmer8", 3)):
+        ty = KT_BY_TAG[tag][1]
+        hs.append(H("c03_censor__%s__n%d" % (tag, n), ["C03"], "crate::step_ops::censor::<%s, %d>()" % (ty, n), unwind=n + 6, cap=600,
+                    tier="quick" if tag in ("kmer4",) else "thorough",
+                    funcs=["remove_censored_exts", "Kmer::extend", "Kmer::min_rc", "slice::binary_search_by_key"],
+                    bounds="every sorted %d-row table over %s (all keys, extension sets, payloads), stranded and unstranded" % (n, tag)))
+        hs.append(H("c03_censor_sharded__%s__n%d" % (tag, n), ["C03"], "crate::step_ops::censor_sharded::<%s, %d, %d>()" % (ty, n, n), unwind=n + 6, cap=600,
+                    tier="quick" if tag in ("kmer4",) else "thorough",
+                    funcs=["remove_censored_exts_sharded", "Kmer::extend", "Kmer::min_rc", "slice::binary_search"],
+                    bounds="every sorted %d-row table and sorted %d-entry all-k-mers list over %s, stranded and unstranded" % (n, n, tag)))
+    return hs
+
+
 def all_harnesses():
     hs = []
     hs += kmer_harnesses()
+    hs += step_harnesses()
     hs += msp_harnesses()
     hs += iter_harnesses()
     hs += ascii_harnesses()
